@@ -215,6 +215,20 @@ CLAIMED = {
           "rounded down."),
     technique="TLA+ model (TLC exhaustive) + spec-generated configurations executed by the implementation against its general path",
     design_ref="DESIGN.md 4.2, 5 (C13)", engine="constsignal"),
+ "C16": dict(
+    text=("CadenceInject.tla splits Cadence.add_signal into Shift / Inject / Unshift per frame so that a callback raising "
+          "inside the k-th frame's injection is an ordinary behaviour; TLC checks TsRestoredWhenIdle (also after the "
+          "exception), OffsetIsRelativeStart, AtMostOnce, RaisePartition, OneShiftedAtATime, SlewExact and computes, "
+          "with InjectionMath's Expected evaluated r rows later, the matrix every frame must receive (sub-sample "
+          "integration and smearing included). Each behaviour (1-4 frames, gaps, unequal lengths, subsets all / stepped "
+          "slice / tail, raising on every k) runs on real plain and ordered cadences on 2 geometries: exception "
+          "propagation, every frame's ts restored, every frame's data equal to TLC's matrix (zero for frames at/after the "
+          "raise), consolidation in order with absolute times, overwrite_times chain and slew_times equal to TLC's, "
+          "sub-cadences never re-spacing the parent."),
+    note=("Trusted: as C01 (probe family, geometry-scaled tolerance); start times are whole multiples of dt; ts compared "
+          "at 4 ulp of the shifted magnitude."),
+    technique="TLA+ model (TLC exhaustive) + spec-generated behaviours (incl. fault at every step) replayed on the implementation",
+    design_ref="DESIGN.md 4.5, 5 (C16)", engine="cadinject"),
 }
 
 NOT_YET = "check not built yet in this round (planned, see DESIGN.md 5); no claim is made"
